@@ -19,6 +19,16 @@
     C03_lex_shape, C03_lex_no_stray_close   the token-shape contract is a theorem of its output
     C03_string_nopanic / _sound / _sound_document / _reject_lexerr   `parse(_fragment)` on any string
     C03_lex_reject_*      lexical rejections after the canonical spelling of any `LexOK` token list
+
+  Last sentence of the property ("whatever is accepted … whose serialisation is accepted again and
+  reparses deep-equal"), on strings, for every input:
+    C03_lex_classes       the lexical classes the tokenizer enforces on EVERY token of EVERY input (`Token.accLex`)
+    C03_accepted_tables   an accepted parse keeps the standing facts about the interning tables (`envOK`)
+    C03_accepted_representable (+ _fragment), C03_accepted_serialises, C03_accepted_roundtrip (+ _fragment)
+                          accepted ⇒ in the C01 domain ⇒ every name writable ⇒ `to_string` succeeds and
+                          its text parses back to the SAME tree — under the decidable tree guards
+                          `NoReservedDecls` (the known findings) and `PlainPiTargets` (see there)
+    C03_accepted_roundtrip_false, C03_accepted_xml_pi_false   the guards are needed (closed witnesses)
 -/
 import XotModel.Lemmas.ParseSound
 import XotModel.Lemmas.ParseNoPanic
@@ -31,6 +41,9 @@ import XotModel.Lemmas.LexSlice
 import XotModel.Lemmas.LexCanon
 import XotModel.Model.ParseString
 import XotModel.Lemmas.LexRejectShapes
+import XotModel.Lemmas.AcceptedMain
+import XotModel.Lemmas.AcceptedWitness
+import XotModel.Props.C01
 
 namespace XotModel.Props
 open XotModel XotModel.Witness
@@ -61,18 +74,6 @@ example : (build .fragment emptyThenCloseLen Env.fresh emptyThenClose none).err?
 example : TokenShape goodDocLen goodDoc none := tokenShape_of_B (by decide +kernel)
 
 /-! ### Accepted trees are sound -/
-
-mutual
-theorem forall_imp {p q : Value → List Tree → Prop} (h : ∀ v ks, p v ks → q v ks) :
-    ∀ t : Tree, t.Forall p → t.Forall q
-  | .node v ks, ht => by
-    rw [Tree.Forall] at ht ⊢
-    exact ⟨h v ks ht.1, forallList_imp h ks ht.2⟩
-theorem forallList_imp {p q : Value → List Tree → Prop} (h : ∀ v ks, p v ks → q v ks) :
-    ∀ ks : List Tree, Tree.Forall.forallList p ks → Tree.Forall.forallList q ks
-  | [], _ => trivial
-  | k :: ks, hk => ⟨forall_imp h k hk.1, forallList_imp h ks hk.2⟩
-end
 
 /-- Whatever is accepted (from ANY token list) is structurally valid — a document node at the root
     and nowhere else, every element's children ordered namespaces → attributes → normal, attribute
@@ -547,5 +548,121 @@ example : (lexDocument ['<', 'a', '/', '>', '<', 'b', '/', '>']).2 = some 4 := b
 example : lexDocument ['x', '<', 'a', '/', '>'] = ([], some 0) :=
   C03_lex_reject_text_before_root [] 'x' ['<', 'a', '/', '>'] (by decide) (by decide) (by decide)
     (by decide) (by decide)
+
+/-! ### Accepted ⇒ representable ⇒ serialises ⇒ reparses to the same tree
+
+`envOK env`: the tables hold the built-in values of `Xot::new` at their ids and no value twice — true of
+`Xot::new()` (C08) and kept by every interning step (`C03_accepted_tables`; Lemmas/AcceptedDefs `EnvReach`).
+Guards, both decidable on the TREE (Lemmas/AcceptedDefs.lean):
+* `NoReservedDecls env t`: no namespace node binds the prefix `xml` or `xmlns`, binds anything to the
+  XML or the xmlns namespace name, or binds a non-empty prefix to the empty name — exactly the inputs of the
+  known findings `C03:reserved-prefix-or-namespace-rebound-accepted`, `C03:prefixed-undeclaration-accepted`.
+* `PlainPiTargets env t`: every PI target is an NCName other than `xml` in any letter case.  xmlparser
+  reads a target with `consume_name` (colons allowed) and only refuses the literal `<?xml `: targets
+  such as `a:b`, `XML` are accepted and do round-trip on the crate, but lie outside `Representable`
+  (Model/SerTokens.lean asks for an NCName ≠ xml: narrower than needed); `<?xml` TAB `x?>` is
+  accepted and does NOT survive (`C03_accepted_xml_pi_false`: a defect). -/
+
+/-- (a) What the reference tokenizer enforces, on every token of every input, in both modes. -/
+theorem C03_lex_classes (m : Mode) (s : Str) : ∀ t ∈ (lexMode m s).1, t.accLex = true :=
+  lexMode_accLex m s
+
+/-- The standing hypotheses on the tables survive every accepted parse; the tables only grow. -/
+theorem C03_accepted_tables {m : Mode} {env : Env} {s : Str} {p : Parsed} (henv : envOK env = true)
+    (h : parseString m env s = .ok p) : envOK p.env = true ∧ EnvApp env p.env :=
+  ⟨Accepted.envOK_of_facts (Accepted.accepted_facts henv h).1, (Accepted.accepted_facts henv h).2.1.app⟩
+
+/-- **C03_accepted_representable** (`parse`): the accepted tree is in the round-trip domain of C01. -/
+theorem C03_accepted_representable {env : Env} {s : Str} {p : Parsed} (henv : envOK env = true)
+    (h : parseString .document env s = .ok p) (hg : NoReservedDecls p.env p.tree = true)
+    (hpi : PlainPiTargets p.env p.tree = true) : Representable p.env p.tree = true :=
+  Accepted.accepted_representable henv h hg hpi
+
+/-- `parse_fragment` (any mode). -/
+theorem C03_accepted_representable_fragment {m : Mode} {env : Env} {s : Str} {p : Parsed} (henv : envOK env = true)
+    (h : parseString m env s = .ok p) (hg : NoReservedDecls p.env p.tree = true)
+    (hpi : PlainPiTargets p.env p.tree = true) : RepresentableFragment p.env p.tree = true :=
+  Accepted.accepted_representable_fragment henv h hg hpi
+
+/-- **C03_accepted_serialises**: every name the parser resolved can be written — some prefix in scope
+    (the one the source used) is bound to its namespace; an attribute in a namespace has a non-empty
+    one; an element in no namespace stands under no default namespace (the source wrote `xmlns=""`). -/
+theorem C03_accepted_serialises {m : Mode} {env : Env} {s : Str} {p : Parsed} (henv : envOK env = true)
+    (h : parseString m env s = .ok p) (hg : NoReservedDecls p.env p.tree = true)
+    (hpi : PlainPiTargets p.env p.tree = true) : namesWritable p.env p.tree [] = some true :=
+  Accepted.accepted_writable henv h hg hpi
+
+/-- **C03_accepted_roundtrip** (`parse`): whatever is accepted serialises, and the text is accepted again
+    and gives the SAME tree (ids, declarations and prefixes included), tables unchanged; `deep_equal`. -/
+theorem C03_accepted_roundtrip {env : Env} {s : Str} {p : Parsed} (henv : envOK env = true)
+    (h : parseString .document env s = .ok p) (hg : NoReservedDecls p.env p.tree = true)
+    (hpi : PlainPiTargets p.env p.tree = true) :
+    ∃ s', toXmlString p.env p.tree [] = .ok s' ∧ ∃ p', parseString .document p.env s' = .ok p' ∧
+      p'.tree = p.tree ∧ p'.env = p.env ∧ deepEqual p'.tree p.tree = true := by
+  obtain ⟨s', p', h1, h2, h3, h4, h5⟩ := C01_roundtrip_writable p.env p.tree
+    (C03_accepted_representable henv h hg hpi) (C03_accepted_serialises henv h hg hpi)
+  exact ⟨s', h1, p', h2, h3, h4, h5⟩
+
+/-- `parse_fragment`. -/
+theorem C03_accepted_roundtrip_fragment {env : Env} {s : Str} {p : Parsed} (henv : envOK env = true)
+    (h : parseString .fragment env s = .ok p) (hg : NoReservedDecls p.env p.tree = true)
+    (hpi : PlainPiTargets p.env p.tree = true) :
+    ∃ s', toXmlString p.env p.tree [] = .ok s' ∧ ∃ p', parseString .fragment p.env s' = .ok p' ∧
+      p'.tree = p.tree ∧ p'.env = p.env ∧ deepEqual p'.tree p.tree = true := by
+  have hr := C03_accepted_representable_fragment henv h hg hpi
+  obtain ⟨s', hs⟩ := (C01_serialises p.env p.tree hr).mpr (C03_accepted_serialises henv h hg hpi)
+  exact ⟨s', hs, C01_roundtrip_fragment_identical p.env p.tree hr s' hs⟩
+
+/-- Non-vacuity, closed: `goodText` (default namespace, prefixed names, `xml:id=" i "`, references, a
+    CDATA section, a comment, a PI, `xmlns=""`) is accepted inside both guards from `Xot::new()`'s tables. -/
+example : ∃ p, parseString .document Env.fresh goodText = .ok p ∧ ∃ s', toXmlString p.env p.tree [] = .ok s' ∧
+    ∃ p', parseString .document p.env s' = .ok p' ∧ p'.tree = p.tree ∧ deepEqual p'.tree p.tree = true := by
+  obtain ⟨p, h, hg, hpi⟩ := good_spec
+  obtain ⟨s', h1, p', h2, h3, _, h5⟩ := C03_accepted_roundtrip good_accepted.2.2.1 h hg hpi
+  exact ⟨p, h, s', h1, p', h2, h3, h5⟩
+
+/-- The clause at full strength: no guard. -/
+def C03_accepted_roundtrip_Statement : Prop :=
+  ∀ (env : Env) (s : Str) (p : Parsed), envOK env = true → parseString .document env s = .ok p →
+    ∃ s', toXmlString p.env p.tree [] = .ok s' ∧ ∃ p', parseString .document p.env s' = .ok p' ∧
+      deepEqual p'.tree p.tree = true
+
+/-- It is false, and `NoReservedDecls` is what fails: `<a xmlns:p="" p:xmlns="v"/>` (accepted;
+    serialised `<a xmlns:p="" xmlns="v"/>`, where the attribute has become a declaration) and
+    `<a xmlns:xml="" xmlns:p="http://www.w3.org/XML/1998/namespace" p:id="i"/>` (serialised
+    `<a xmlns:xml="" xml:id="i"/>`) are accepted, serialise, reparse, and are not `deep_equal`. -/
+theorem C03_accepted_roundtrip_false : ¬ C03_accepted_roundtrip_Statement := by
+  intro hall
+  obtain ⟨p, h1, _, _, h4, p', h5, h6⟩ := roundTripBroken_spec undecl_broken.1 undecl_broken.2.1 undecl_broken.2.2
+  obtain ⟨s', k1, q, k2, k3⟩ := hall Env.fresh _ p good_accepted.2.2.1 h1
+  rw [h4] at k1
+  cases k1
+  rw [h5] at k2
+  cases k2
+  rw [h6] at k3
+  cases k3
+
+example : ∃ p, parseString .document Env.fresh (renderTokens xmlReboundTokens) = .ok p ∧
+    NoReservedDecls p.env p.tree = false ∧ ∃ s' p', toXmlString p.env p.tree [] = .ok s' ∧
+      parseString .document p.env s' = .ok p' ∧ deepEqual p'.tree p.tree = false := by
+  obtain ⟨p, h1, h2, _, h4, p', h5, h6⟩ :=
+    roundTripBroken_spec xmlRebound_broken.1 xmlRebound_broken.2.1 xmlRebound_broken.2.2
+  exact ⟨p, h1, h2, _, p', h4, h5, h6⟩
+
+/-- `PlainPiTargets` hides a defect.  A processing instruction whose target is `xml`, written with
+    white space other than a blank after the target (`<a><?xml` TAB `x?></a>`), is accepted: the builder
+    accepts its tokens (`xmlPiTokens`: target `xml`, content `x`) inside `NoReservedDecls` and the tree
+    serialises to `<a><?xml x?></a>` (first part) — and the tokenizer refuses `<?xml ` in element content,
+    in both modes, after ANY canonical prefix (second part): the serialisation is not accepted again. -/
+theorem C03_accepted_xml_pi_false :
+    xmlPiAccepted = true ∧
+    ∀ (frag : Bool) (ts : List Token) (d : Nat) (rest : Str), LexOK frag ts = true →
+      ctxAfter frag (LexCtx.init frag) ts = .content d → ∀ (env : Env) (p : Parsed),
+        parseString (modeOf frag) env (renderTokens ts ++ (['<', '?', 'x', 'm', 'l', ' '] ++ rest)) ≠ .ok p := by
+  refine ⟨xmlPi_accepted, fun frag ts d rest hok hctx env p => ?_⟩
+  have h : lexMode (modeOf frag) (renderTokens ts ++ (['<', '?', 'x', 'm', 'l', ' '] ++ rest)) =
+      (placeTokens 0 ts, some (strLen (renderTokens ts))) :=
+    reject_content frag ts d _ ('?' :: 'x' :: 'm' :: 'l' :: ' ' :: rest) rfl hok hctx (failsAt_xml_pi frag d _ rest)
+  exact C03_string_reject_lexerr _ env _ _ (by rw [h]) p
 
 end XotModel.Props
